@@ -1,2 +1,12 @@
 import Sio.Props.C05
-#print axioms Sio.C05.placeholder_stub
+#print axioms Sio.C05.step_of_completesEvent
+#print axioms Sio.C05.invoke_once
+#print axioms Sio.C05.invoke_none_on_error
+#print axioms Sio.C05.not_connected
+#print axioms Sio.C05.ack_exact
+#print axioms Sio.C05.ack_to_sender_only
+#print axioms Sio.C05.ack_binary_iff
+#print axioms Sio.C05.binary_reassembly
+#print axioms Sio.C05.binbuf_keyed
+#print axioms Sio.C05.order_inline
+#print axioms Sio.C05.order_inline_append
